@@ -2,7 +2,7 @@
    vm_compute over Q on the inputs/outputs of the implementation). *)
 From Coq Require Import List ZArith QArith Bool Arith.
 Import ListNotations.
-From FV.C17 Require Import Model.
+From FV.C17 Require Import Model AlignEntry.
 From FV.C17.gen Require Import TensorIdx.
 
 Fixpoint nat_list_eqb (a b : list nat) : bool :=
@@ -59,3 +59,23 @@ Definition chk_align (Ms outs : list (smatrix Q)) : bool :=
 
 Definition chk_l2g (tol : Q) (lte orient full : vec Q) : bool :=
   vec_close tol (convert_lte_local2global QOps lte orient) full.
+
+(* align_nnz at the caller's level: the matrices as handed to femio (format, shape,
+   stored (row, col, value) entries in storage order) against what femio returned
+   (stored entries of each returned CSR matrix in storage order, its shape), or the
+   exception it raised; the model computes the flat keys (translated expression),
+   the .tocsr() of COO inputs and the union pattern itself; exact comparison *)
+Definition ent_eq (A B : entries Q) : bool :=
+  all2 (fun x y => pos_eqb (fst x) (fst y) && Qeq_bool (snd x) (snd y)) A B.
+Definition fmt_eqb (a b : fmt) : bool :=
+  match a, b with CSR, CSR => true | COO, COO => true | _, _ => false end.
+Definition err_eqb (a b : err) : bool :=
+  match a, b with EIndex, EIndex => true | EValue, EValue => true | _, _ => false end.
+Definition spm_eq (A B : spm Q) : bool :=
+  fmt_eqb (sp_fmt A) (sp_fmt B) && shape_eqb (sp_shape A) (sp_shape B) && ent_eq (sp_ent A) (sp_ent B).
+Definition chk_align_entry (Ms : list (spm Q)) (impl : list (spm Q) + err) : bool :=
+  match align_nnz_entry QOps Ms, impl with
+  | inl As, inl outs => all2 spm_eq As outs
+  | inr e, inr e' => err_eqb e e'
+  | _, _ => false
+  end.
